@@ -151,6 +151,34 @@ def gen_cases(tier, rng):
         for (pa, pb) in PAGES[:2]:
             cases.append({'differ': differ, 'raw_query': [('a', 'http://site.test/same'), ('b', 'http://site.test/same')],
                           'upstream': {'http://site.test/same': sc.ok_up(pa, 'text/html; charset=utf-8')}, 'files': {}, 'differ_mode': 'real'})
+    # upstream replies WITHOUT a Content-Type header (the differ and the decoder must see exactly the headers that were served, whatever
+    # the URL looks like): extension-less, .pdf, .txt, .html URLs; HTML, a PDF signature, a page that names its charset itself
+    import hashlib
+    nohdr_bodies = [b'<html><body><p>plain old</p><a href="/1">l</a></body></html>', b'%PDF-1.4 not really a pdf but looks like one',
+                    b'<meta charset="iso-8859-1"><p>quoted \x93text\x94 caf\xe9</p>', '<p>caf\u00e9 \u2603</p>'.encode('utf-8')]
+    for differ in sc.REGISTERED:
+        for ua, ub in [('http://site.test/report.pdf', 'http://site.test/report-v2.pdf'), ('http://site.test/page', 'http://site.test/notes.txt'),
+                       ('http://site.test/a.html', 'http://site.test/b.xyz')]:
+            for ba, bb in [(nohdr_bodies[0], nohdr_bodies[2]), (nohdr_bodies[1], nohdr_bodies[0]), (nohdr_bodies[2], nohdr_bodies[3])]:
+                if tier == 'quick' and rng.random() > 0.5:
+                    continue
+                for extra in ([], [('X-Other', 'v')]):
+                    up = {ua: ('resp', 200, list(extra), ba), ub: ('resp', 200, [('Server', 's')], bb)}
+                    cases.append({'differ': differ, 'raw_query': [('a', ua), ('b', ub)], 'upstream': up, 'files': {}, 'differ_mode': 'real'})
+    # a response must not depend on earlier requests: the same bytes served at different URLs under different declared charsets, requested
+    # one after the other with their (correct, identical) hashes - and then the first one again
+    shared = '<p>caf\u00e9 \u201cquoted\u201d na\u00efve</p><a href="/x">\u00e9</a>'.encode('utf-8')
+    h = hashlib.sha256(shared).hexdigest()
+    other = b'<p>plain other side</p>'
+    for differ in sc.REGISTERED:
+        seq = [('http://one.test/v', 'text/html; charset=utf-8'), ('http://two.test/v', 'text/html; charset=windows-1252'),
+               ('http://three.test/v', 'text/plain; charset=iso-8859-2'), ('http://one.test/v', 'text/html; charset=utf-8')]
+        for url, cs in seq:
+            for side in ('a', 'b'):
+                o = 'b' if side == 'a' else 'a'
+                raw = [(side, url), (side + '_hash', h), (o, 'http://other.test/o'), ('ignore_decoding_errors', 'true'), ('content_type_options', 'ignore')]
+                up = {url: sc.ok_up(shared, cs), 'http://other.test/o': sc.ok_up(other, 'text/html; charset=utf-8')}
+                cases.append({'differ': differ, 'raw_query': raw, 'upstream': up, 'files': {}, 'differ_mode': 'real'})
     # stubbed differs: only the argument binding matters; includes a differ result that sets its own "type"
     for differ in sc.REGISTERED:
         for inj in INJECT:
@@ -169,6 +197,17 @@ def run(rep, ctx):
                     'text _decode_body yields for them (decoding itself is property C12)',
                     'modelled rather than verified: Tornado request parsing and JSON encoding of the result']
     cases = gen_cases(ctx['tier'], rng)
+    # the outcome of the real differ on the served content is an oracle input of the handler model
+    import web_monitoring_diff.server.server as df0
+    from web_monitoring_diff.exceptions import UndiffableContentError
+    for c in cases:
+        if c['differ_mode'] == 'real' and c['differ'] in df0.DIFF_ROUTES:
+            try:
+                library_result(df0, c['differ'], c)
+            except UndiffableContentError:
+                c['differ_outcome'] = 'undiffable'
+            except Exception:  # noqa
+                c['differ_outcome'] = 'error'
     records = sc.run_cases(cases, ctx['model_available'])
     dist = {}
     for r in records:
